@@ -22,6 +22,11 @@ func checkC15(r *Report, p *Program) {
 	r03_6(r, p)
 	// trigger side: related-object events resolve the rules the same way the listing side does (shared with C14)
 	r14_4(r, p)
+	// the customize manager's error checks mean what they say (an inverted one drops every related event, or
+	// replaces the related map by an empty one) — shared with C12
+	errorChecksMeanWhatTheySay(r, p, "R15.6", func(f *ssa.Function) bool { return strings.Contains(FK(f), "/customize.") })
+	resultKeptOnSuccess(r, p, "R15.7", 1)
+	relatedInformerMemo(r, p, "R15.8")
 	// groups never wiped between rules
 	for _, key := range []string{"controller/common/api/v2.UniformObjectMap.InitGroup"} {
 		if f := fn(r, p, "R15.2", key); f != nil {
@@ -220,27 +225,62 @@ func r15_2(r *Report, p *Program) {
 	}
 	r.Table("R15.2 matchesRelatedRule", rows)
 	r.Check(rule, FK(m)+"[rejects-only-what-listing-excludes]", p.Pos(m.Pos()), ok, "every 'no match' has a listing-side counterpart", why)
-	// foreign namespace for a namespaced parent is an error on both sides
+	// foreign namespace for a namespaced parent is an error on both sides — and only that:
+	// the edge 'rule namespace ≠ parent namespace' runs straight into an error return, is reached
+	// only for a namespaced parent and a rule that names a namespace; the 'equal' edge goes on
 	for _, f := range []*ssa.Function{m, g} {
-		okE := false
+		okE, whyE, nEdges := true, "", 0
+		isD := func(l Lit) bool {
+			if l.Op.String() != "==" || l.X == nil || l.Y == nil {
+				return false
+			}
+			x, y := E(l.X), E(l.Y)
+			if strings.HasSuffix(x, "GetNamespace)(p1)") {
+				x, y = y, x
+			}
+			return y == "call(unstructured.Unstructured.GetNamespace)(p1)" && strings.HasSuffix(x, ".Namespace")
+		}
+		straightErr := func(from *ssa.BasicBlock) bool {
+			return engine.Query{Fn: f, From: []engine.Point{{B: from}}, CutEdge: func(bb *ssa.BasicBlock, i int, l *Lit) bool { return l != nil },
+				Target: func(x ssa.Instruction) bool { rt, isR := x.(*ssa.Return); return isR && engine.ReturnsFreshError(rt) }}.Find() != nil
+		}
 		for _, b := range engine.BlocksInl(f) {
-			for _, in := range b.Instrs {
-				rt, isR := in.(*ssa.Return)
-				if !isR || !engine.ReturnsFreshError(rt) {
+			for i := range b.Succs {
+				l, has := engine.EdgeLit(b, i)
+				if !has || !isD(l) {
 					continue
 				}
-				w := unguarded(f, nil, rt, func(l Lit) bool {
-					return !l.Pos && l.Op.String() == "==" && strings.Contains(l.Atom, ".Namespace") && strings.Contains(l.Atom, "GetNamespace)(p1)") && !strings.Contains(l.Atom, "builtin.len")
-				})
-				w2 := unguarded(f, nil, rt, func(l Lit) bool {
+				nEdges++
+				s := b.Succs[i]
+				if l.Pos {
+					if straightErr(s) {
+						okE, whyE = false, "a rule naming the parent's own namespace is rejected"
+					}
+					continue
+				}
+				if !straightErr(s) {
+					okE, whyE = false, "a rule naming a foreign namespace for a namespaced parent is not rejected here"
+					continue
+				}
+				if len(s.Instrs) == 0 {
+					continue
+				}
+				if w := unguarded(f, nil, s.Instrs[0], func(l Lit) bool {
 					return l.Pos && (l.Atom == "p0" || strings.HasSuffix(l.Atom, ".APIResource.Namespaced"))
-				})
-				if w == nil && w2 == nil {
-					okE = true
+				}); w != nil {
+					okE, whyE = false, "the namespace clash is an error also for a cluster-scoped parent"
+				}
+				if w := unguarded(f, nil, s.Instrs[0], func(l Lit) bool {
+					return !l.Pos && strings.Contains(l.Atom, "builtin.len)(") && strings.HasSuffix(l.Atom, ".Namespace) == 0)")
+				}); w != nil {
+					okE, whyE = false, "a rule that leaves the namespace out is rejected for a namespaced parent (or: a named foreign namespace is not): 'namespace given' is tested the wrong way round"
 				}
 			}
 		}
-		r.Check(rule, FK(f)+"[foreign-namespace⇒error]", p.Pos(f.Pos()), okE, "namespaced parent + rule naming another namespace ⇒ error", "a rule naming a foreign namespace for a namespaced parent is not rejected here")
+		if nEdges == 0 {
+			okE, whyE = false, "the rule's namespace is never compared with the parent's"
+		}
+		r.Check(rule, FK(f)+"[foreign-namespace⇒error]", p.Pos(f.Pos()), okE, "namespaced parent ∧ rule names another namespace ⇔ error", whyE)
 	}
 	// listing side: names style
 	var nameLoop *engine.RangeLoop
@@ -265,8 +305,10 @@ func r15_2(r *Report, p *Program) {
 			whyL = "objects are listed by names without stringInArray(obj.GetName(), rule.Names)"
 		}
 		// all ⇔ len(Names)==0
+		nAll := 0
 		for _, cs := range callsTo(g, false, "UniformObjectMap.InsertAll") {
 			if strings.HasPrefix(E(cs.Arg(1)), "call(controller/common/customize.listObjects)(") {
+				nAll++
 				w := unguarded(g, nil, cs.Instr.(ssa.Instruction), func(l Lit) bool { return l.Pos && strings.HasSuffix(l.Atom, ".Names) == 0)") })
 				if w != nil {
 					okL, whyL = false, "all objects of the namespace are listed although Names is not empty"
@@ -274,9 +316,30 @@ func r15_2(r *Report, p *Program) {
 			}
 		}
 		// listObjects is given the rule's namespace
+		if nAll == 0 {
+			okL, whyL = false, "a names-style rule without Names selects nothing: the listed objects are never inserted"
+		}
+		// listObjects is given the parent's namespace when the parent is namespaced, else the rule's
 		for _, cs := range callsTo(g, false, "customize.listObjects") {
-			if !strings.HasSuffix(E(cs.Common().Args[1]), ".Namespace") {
-				okL, whyL = false, "names-style listing is not scoped by the rule's namespace"
+			ns := cs.Common().Args[1]
+			okN := false
+			if ph, isPhi := ns.(*ssa.Phi); isPhi && len(ph.Edges) == 2 {
+				okN = true
+				for i, e := range ph.Edges {
+					pol := phiEdgePolarity(ph, i, func(a string) bool { return strings.HasSuffix(a, ".APIResource.Namespaced") })
+					isParentNs := E(e) == "call(unstructured.Unstructured.GetNamespace)(p1)"
+					isRuleNs := strings.HasSuffix(E(e), ".Namespace") && !strings.Contains(E(e), "GetNamespace")
+					if !(isParentNs && pol == 1 || isRuleNs && pol == -1) {
+						okN = false
+					}
+				}
+			}
+			if !okN {
+				if strings.HasSuffix(E(ns), ".Namespace") {
+					okL, whyL = false, "names-style listing is scoped by the rule's namespace only: for a namespaced parent and a rule that leaves the namespace out, same-named objects of EVERY namespace are sent to the hook (and never wake the parent: the trigger side excludes other namespaces)"
+				} else {
+					okL, whyL = false, "names-style listing is scoped by "+E(ns)+", not by (parent's namespace if the parent is namespaced, else the rule's namespace)"
+				}
 			}
 		}
 	}
@@ -377,4 +440,65 @@ func r15_4(r *Report, p *Program) {
 		}
 		r.Check(rule, FK(f), p.Pos(f.Pos()), ok, "hook only on miss; successful answer cached", why)
 	}
+}
+
+// relatedInformerMemo: getRelatedClient subscribes to a related resource exactly when the manager has no
+// informer for it yet, and remembers the subscription it took (both directions).
+func relatedInformerMemo(r *Report, p *Program, rule string) {
+	r.Rule(rule, "getRelatedClient: SharedInformerFactory.Resource (a new subscription) ⇔ relatedInformers has no entry; the new subscription is stored before the successful return; an existing entry is returned as it is")
+	r.Floor(rule, 1)
+	f := fn(r, p, rule, "controller/common/customize.Manager.getRelatedClient")
+	if f == nil {
+		return
+	}
+	res := callsTo(f, false, "SharedInformerFactory.Resource")
+	sets := callsTo(f, false, "InformerMap.Set")
+	gets := callsTo(f, false, "InformerMap.Get")
+	if len(res) != 1 || len(sets) != 1 || len(gets) != 1 {
+		r.Check(rule, FK(f), p.Pos(f.Pos()), false, "", sf("expected one Get, one Resource and one Set on the related-informer map, found %d/%d/%d", len(gets), len(res), len(sets)))
+		return
+	}
+	got := ssa.Value(gets[0].Instr.(*ssa.Call))
+	miss := func(l Lit) bool {
+		v, isNil, isT := l.NilTest()
+		return isT && engine.SameValue(v, got) && isNil
+	}
+	hit := func(l Lit) bool {
+		v, isNil, isT := l.NilTest()
+		return isT && engine.SameValue(v, got) && !isNil
+	}
+	ok, why := true, ""
+	ri, si := res[0].Instr.(ssa.Instruction), sets[0].Instr.(ssa.Instruction)
+	if w := unguarded(f, nil, ri, miss); w != nil {
+		ok, why = false, "a new subscription is taken although the manager already holds an informer for the resource: one subscription per sync is leaked and the shared informer never stops"
+	}
+	if w := unguarded(f, nil, si, miss); w != nil {
+		ok, why = false, "the remembered informer is overwritten although one is present"
+	}
+	// miss ⇒ created and stored before a successful return
+	var from []engine.Point
+	for _, b := range f.Blocks {
+		for i := range b.Succs {
+			if l, has := engine.EdgeLit(b, i); has && miss(l) {
+				from = append(from, engine.Point{B: b.Succs[i]})
+			}
+		}
+	}
+	if len(from) == 0 {
+		ok, why = false, "the lookup result is never tested"
+	} else if w := (engine.Query{Fn: f, From: from, CutInstr: func(in ssa.Instruction) bool { return in == si },
+		Target: func(in ssa.Instruction) bool { rt, isR := in.(*ssa.Return); return isR && !isErrReturn(rt) }}).Find(); w != nil {
+		ok, why = false, "with no informer for the resource the function returns successfully without creating and remembering one (the caller dereferences the nil informer; Stop() cannot release it)"
+	}
+	// hit ⇒ the stored informer is what is returned
+	for _, b := range f.Blocks {
+		if rt, isR := b.Instrs[len(b.Instrs)-1].(*ssa.Return); isR && !isErrReturn(rt) && len(rt.Results) >= 2 {
+			v := engine.RetVal(rt, 1)
+			if !(engine.SameValue(v, got) || strings.Contains(E(v), "InformerMap.Get)(") || strings.Contains(E(v), "SharedInformerFactory.Resource)(")) {
+				ok, why = false, "returns "+E(v)+", neither the remembered nor the newly created informer"
+			}
+		}
+	}
+	_ = hit
+	r.Check(rule, FK(f), p.Pos(f.Pos()), ok, "subscribe ⇔ miss; stored before success", why)
 }
